@@ -252,7 +252,15 @@ func c07CLI(c *core.Ctx, src, f string) {
 	for _, tc := range []struct {
 		text string
 		want bool
-	}{{f, true}, {src, src == f}} {
+	}{{f, true}, {src, src == f},
+		// near misses of the formatter's output: only the text itself passes
+		{strings.TrimSuffix(f, "\n"), f == ""}, {f + " ", false}, {" " + f, f == ""},
+		{"// " + strings.Repeat("long comment ", 5500) + "\n" + f + "x   :=   1\nprint    x\n", false}} {
+		if tc.text != f && tc.text != src {
+			// expectation for a near miss: is it its own formatted text (in-process formatter)?
+			_, ft, ok := formatGuard(c, tc.text)
+			tc.want = ok && ft == tc.text
+		}
 		if err := os.WriteFile(path, []byte(tc.text), 0o644); err != nil {
 			c.Inconclusive(err.Error())
 			return
